@@ -600,6 +600,22 @@ def cases(tier, seed):
                             base = dict(n=n, d=d, field=field, form=form, solver=solver, prior=pick(priors, i), kind="mixed", rank=rank, seed=sd + i)
                             for cl in (clauses if thorough or not slow else clauses[:1] + clauses[2:5]):
                                 add(cl, base, icl("min_error", form, field, "dm", solver))
+            # ---- one ensemble, several vector layouts (1-D, column and row kets mixed)
+            if sd == seeds[0]:
+                for field in fields:
+                    for n, d in ((2, 2), (3, 2), (3, 3), (4, 3)):
+                        i += 1
+                        base = dict(n=n, d=d, field=field, form="dual", solver=solver, rep="mixed-layout", prior=pick(["uniform", "random"], i), kind="pure", seed=sd + i, phases=True)
+                        for cl in ME_GENERIC:
+                            add(cl, base, icl("min_error", "dual", field, "mixed-vector-layouts", solver))
+            # ---- density matrices stored Fortran-ordered
+            if sd == seeds[0]:
+                for field in fields:
+                    for n, d in ((2, 2), (3, 3)):
+                        i += 1
+                        base = dict(n=n, d=d, field=field, form="dual", solver=solver, rep="dm-F", prior=pick(["uniform", "random"], i), kind="pure", seed=sd + i, phases=True)
+                        for cl in ME_GENERIC:
+                            add(cl, base, icl("min_error", "dual", field, "fortran-ordered-dm", solver))
             # ---- (1, d) row vectors (accepted by to_density_matrix like columns)
             if sd == seeds[0]:
                 for field in fields:
@@ -717,6 +733,13 @@ def cases(tier, seed):
                     i += 1
                     add("isd.false_on_overlapping", dict(kind="pair", overlap=ov, d=d, field=field, rep=pick(reps, i), prior=pick(priors, i), seed=sd + i), "is_distinguishable/overlapping/" + field)
             add("isd.true_on_orthogonal", dict(kind="named:bell", field=field, rep=pick(reps, i), prior="omitted", rotate=(field == "complex"), seed=sd), "is_distinguishable/orthogonal/" + field)
+            if sd == seeds[0]:
+                for rp in ("row", "mixed-layout"):  # row kets, and one ensemble mixing 1-D / column / row kets
+                    for d in (2, 3):
+                        i += 1
+                        add("isd.true_on_orthogonal", dict(kind="orthogonal", n=d, d=d, field=field, rep=rp, prior=pick(priors, i), seed=sd + i), "is_distinguishable/orthogonal-%s/%s" % (rp, field))
+                        add("isd.false_on_overlapping", dict(kind="pure", n=d, d=d, field=field, rep=rp, prior=pick(priors, i), seed=sd + i), "is_distinguishable/overlapping-%s/%s" % (rp, field))
+                add("isd.true_on_orthogonal", dict(kind="orthogonal", n=3, d=3, field=field, rep="1d", prior="zero-middle", seed=sd + 5), "is_distinguishable/orthogonal-zero-prior/" + field)
         # ---- helper functions under contract
         for field in fields:
             for d in (1, 2, 3, 4):
